@@ -186,7 +186,11 @@ type World struct {
 	HChg    []bool         // the height changed at some point since Base
 	Base    []Base
 	Roots   []*mast.Root
+	RootC   []Contents // contents captured (through Get) when the root was retained
 	Cursors []*mast.Cursor
+	CursorC []Contents // contents of the tree when the cursor was opened
+
+	LastC   []Contents // scratch for monitors: contents of each slot as last read
 
 	Reduced bool // reduced state key
 	NoLog   bool
@@ -199,7 +203,7 @@ const MaxRoots = 2
 func New(cfg *Config) (*World, error) {
 	w := &World{Cfg: cfg,
 		Trees: make([]*mast.Mast, MaxTrees), Model: make([]map[int]int, MaxTrees), Mod: make([]map[int]bool, MaxTrees), HChg: make([]bool, MaxTrees), Base: make([]Base, MaxTrees),
-		Roots: make([]*mast.Root, MaxRoots), Cursors: make([]*mast.Cursor, 1),
+		Roots: make([]*mast.Root, MaxRoots), RootC: make([]Contents, MaxRoots), Cursors: make([]*mast.Cursor, 1), CursorC: make([]Contents, 1), LastC: make([]Contents, MaxTrees),
 		Cmp: &env.Counter{}, Msh: &env.Counter{}}
 	if cfg.InMemory {
 		m := mast.NewInMemory()
@@ -466,6 +470,7 @@ func (w *World) apply(op Op) Res {
 			w.Base[op.A] = b
 			rc := *root
 			w.Roots[op.B] = &rc
+			w.RootC[op.B] = b.Contents
 		case OpReload, OpReloadJSON:
 			lr := root
 			if op.Kind == OpReloadJSON {
@@ -544,6 +549,7 @@ func (w *World) apply(op Op) Res {
 			return r
 		}
 		w.Cursors[0] = c
+		w.CursorC[0] = w.ReadContents(m)
 		return r
 	case OpDrop:
 		w.Trees[op.A] = nil
